@@ -77,11 +77,37 @@ def extract(repo):
         o = m.end() - 1
         body = op[o:match_close(op, o) + 1]
         census.append({"node": "optimizer::For_Loop", "guards": [g.group(1) for g in re.finditer(r"\b(" + "|".join(GUARDS) + r")\s+[A-Za-z_]\w*\s*[({]", body)]})
+    # (c) what each DEFINITION of a primitive (and of the Stack_Holder helpers they use) does to the Stack_Holder, in textual order
+    dk = strip_comments(open(os.path.join(repo, "include/chaiscript/dispatchkit/dispatchkit.hpp")).read())
+    EFFECTS = [("push_scope_data", r"\bpush_stack_data\s*\("), ("push_params", r"\bpush_call_params\s*\("), ("pop_params", r"\bcall_params\s*\.\s*pop_back\s*\("),
+               ("pop_scope_data", r"(\bstack\b|get_stack_data\s*\([^()]*\))\s*\.\s*pop_back\s*\("), ("push_stack", r"\bpush_stack\s*\(\s*\)"),
+               ("pop_stack", r"\bstacks\s*\.\s*pop_back\s*\("), ("inc_depth", r"\+\+\s*\w+\s*\.\s*call_depth|\bcall_depth\s*\+\+|\bcall_depth\s*\+="),
+               ("dec_depth", r"--\s*\w+\s*\.\s*call_depth|\bcall_depth\s*--|\bcall_depth\s*-="), ("clear_params", r"\bcall_params\s*\.\s*back\s*\(\s*\)\s*\.\s*clear\s*\("),
+               ("emplace_scope", r"\bstacks\s*\.\s*back\s*\(\s*\)\s*\.\s*emplace_back\s*\("), ("emplace_stack", r"\bstacks\s*\.\s*emplace_back\s*\("),
+               ("emplace_params", r"\bcall_params\s*\.\s*emplace_back\s*\("), ("erase", r"\b(stacks|call_params)\s*\.\s*(clear|erase|resize|assign)\s*\(|\bcall_depth\s*=[^=]")]
+    defs = []
+    for name in PRIMS + ["push_stack_data", "push_stack", "push_call_params"]:
+        for m in re.finditer(r"\bvoid\s+" + name + r"\s*\(([^()]*)\)\s*(const)?\s*(noexcept)?\s*\{", dk):
+            o = m.end() - 1
+            body = dk[o + 1:match_close(dk, o)]
+            found = []
+            for eff, rx in EFFECTS:
+                if eff == "push_stack" and name == "push_stack":
+                    continue
+                for e in re.finditer(rx, body):
+                    found.append((e.start(), eff))
+            if name in PRIMS:
+                for e in re.finditer(r"(?<![\w.>])" + name + r"\s*\(", body):
+                    found.append((e.start(), "forward"))
+            defs.append({"prim": name, "holder_param": "Stack_Holder" in m.group(1), "effects": [e for _, e in sorted(found)]})
+    defs.sort(key=lambda r: (r["prim"], not r["holder_param"]))
+    if len(defs) < 9:
+        raise ValueError("only %d primitive definitions recognised" % len(defs))
     if len(census) < 30 or len(calls) < 6:
         raise ValueError("census too small: %d nodes, %d calls" % (len(census), len(calls)))
     calls.sort(key=lambda r: (r["file"], r["struct"], r["fn"], r["prim"]))
     census.sort(key=lambda r: r["node"])
-    return {"calls": calls, "census": census}
+    return {"calls": calls, "census": census, "defs": defs}
 
 
 def to_lean(x):
@@ -92,6 +118,10 @@ def to_lean(x):
     L.append(",\n".join(rows))
     L += ["]", "", "/-- the guard objects each AST node class constructs, in textual order -/", "def raiiGuards : List (String × List String) := ["]
     rows = ["  (%s, [%s])" % (lean_str(r["node"]), ", ".join(lean_str(g) for g in r["guards"])) for r in x["census"]]
+    L.append(",\n".join(rows))
+    L += ["]", "", "/-- (primitive, takes the Stack_Holder as a parameter, what its body does to the Stack_Holder in textual order) for every definition -/",
+          "def raiiPrimDefs : List (String × Bool × List String) := ["]
+    rows = ["  (%s, %s, [%s])" % (lean_str(r["prim"]), lean_bool(r["holder_param"]), ", ".join(lean_str(e) for e in r["effects"])) for r in x["defs"]]
     L.append(",\n".join(rows))
     L += ["]", "end ChaiVerif.Gen"]
     return "\n".join(L) + "\n"
